@@ -1,0 +1,13 @@
+//go:build verif
+
+package layer4
+
+// VerifHook, when set (verification builds only), is called at the synchronisation points of the listener wrapper and
+// of the UDP server loop with the name of the point and the object it concerns.
+var VerifHook func(point string, obj any)
+
+func verifHook(point string, obj any) {
+	if h := VerifHook; h != nil {
+		h(point, obj)
+	}
+}
